@@ -331,7 +331,7 @@ def _resolve_edit(lines, ms: dict, op: dict, edit_no: int, long_cmd="Slow", quic
         #  'out' - the line is the last child of its parent (which keeps another instruction): de-indent it behind the parent
         cand = []
         for i in range(n):
-            if lines[i][0] not in touched or S.ins[i] in ("", "Comment"):
+            if lines[i][0] not in (ms["started"] | ms["executed"]) or S.ins[i] in ("", "Comment"):
                 continue
             prev = [j for j in range(i) if S.parent[j] == S.parent[i]]
             if prev and S.ins[prev[-1]] in CONTAINERS and S.subtree_end(prev[-1]) == i and S.children(prev[-1]):
@@ -419,7 +419,10 @@ def _resolve_edit(lines, ms: dict, op: dict, edit_no: int, long_cmd="Slow", quic
         info.update(target=lines[i][0], touched=lines[i][0] in touched, nested=S.depth[i] > 0)
         return new, info
     if kind == "change_started":
-        cand = [i for i in range(n) if lines[i][0] in touched and _changed_started_text(lines[i][1]) is not None]
+        # lines reported as started or executed; a line reported as FAILED is not a must-reject target (editing the failed line
+        # is the engine's way out of a method error)
+        cand = [i for i in range(n) if lines[i][0] in (ms["started"] | ms["executed"]) - {"root"}
+                and _changed_started_text(lines[i][1]) is not None]
         if not cand:
             info["fallback"] = "none"
             return None, info
